@@ -101,6 +101,12 @@ def shaped_cases(tier):
         if r.random() < 0.5:
             re_, subj = r.choice([("(a)|(b)", "ab"), ("x(y)?(z)", "xz"), ("(\\d)?([a-z])", "q7"), ("(?:(k)=)?(v)", "v;k=v")])
             stmts.append(A.scan(A.string(subj), (re_.replace("\\\\", "\\"), [A.node(A.var("g")), A.attrn(A.var("g"), A.attr("g0", A.rcap(0)), A.attr("g1", A.rcap(1)), A.attr("g2", A.rcap(2)))])))
+        if r.random() < 0.4:
+            # arms anchored at the start of what is left: they miss first and match in a later round
+            a1, a2, subj = r.choice([("^a", "b", "ba"), ("^[a-z]+", "_", "__init__"), ("\\bfoo", "\\W", "-foo foo"), ("^x", "[^x]", "yyxx")])
+            a1, a2 = a1.replace("\\\\", "\\"), a2.replace("\\\\", "\\")
+            stmts.append(A.scan(A.string(subj), (a1, [A.node(A.var("h1")), A.attrn(A.var("h1"), A.attr("anch", A.rcap(0)))]),
+                                (a2, [A.node(A.var("h2")), A.attrn(A.var("h2"), A.attr("other", A.rcap(0)))])))
         prog = A.file([A.stanza("(return_statement (_)? @v) @ret ", stmts)])
         cases += A.both_modes("c02s-%d" % k, prog, r.choice([3, 11]))      # sources with return statements
     return cases
